@@ -156,6 +156,10 @@ def sig_pairs(tier):
                 cfgs.append(("equiv", si, ri, consistent))
     if tier == "quick":
         cfgs = cfgs[::3]
+    for si in range(len(sigs) * 2, len(sigs) * 2 + (8 if tier == "quick" else 48)):
+        for ri in range(len(renamings)):
+            for consistent in (True, False):
+                cfgs.append(("equiv", si, ri, consistent))
     return cfgs
 
 
@@ -163,8 +167,12 @@ def _sig_text(si, names):
     pos = ("center", "left", "outer")
     combos = list(itertools.product(pos[:2], pos[:2], pos[:2], pos))
     three = si >= len(combos)
-    p1, p2, q1, q2 = combos[si % len(combos)]
+    p1, p2, q1, q2 = combos[(si * 7 if si >= 2 * len(combos) else si) % len(combos)]
     a, b, c = names
+    if si >= 2 * len(combos):
+        # names that occur only on the output side (two or three of them)
+        k = si - 2 * len(combos)
+        return (f"({a}:{p1})->({b}:{q1},{c}:{q2})", f"()->({a}:{p1},{b}:{q2})", f"({c}:{p2})->({a}:{q1}),({b}:{q2})", f"(),()->({b}:{p1},{a}:{p2},{c}:{q2})")[k % 4]
     if not three:
         return f"({a}:{p1},{b}:{p2})->({a}:{q1},{b}:{q2})"
     return f"({a}:{p1},{b}:{p2}),({c}:{q1})->({b}:{q2},{c}:{p1}),({a}:{q1})"
@@ -286,8 +294,11 @@ def run_metric(cfg):
     arr = xr.DataArray(np.arange(8, dtype=float).reshape(2, 2, 2) + 1, dims=[S.dimname(a, "center") for a in ("X", "Y", "Z")])
     m = g.get_metric(arr, q)
     it = g.integrate(arr, list(q))
+    # the same choice of metric product reached through the weighted stencil operations
+    w1 = g.interp(arr, q[0], to="left", boundary="extend", metric_weighted=tuple(q))
+    w2 = g.diff(arr, q[-1], to="left", boundary="extend", metric_weighted={q[-1]: list(q)})
     # dimension *order* and raw bytes are part of the outcome (byte-identical outputs are demanded)
-    return digest(tuple(m.dims), m.values, tuple(it.dims), it.values)
+    return digest(tuple(m.dims), m.values, tuple(it.dims), it.values, tuple(w1.dims), w1.values, tuple(w2.dims), w2.values)
 
 
 # ------------------------------------------------------------------ driver (v): pad on simple grids
